@@ -164,7 +164,7 @@ class Sess:
         ident = f"{side.lower()}{self.cnt}"
         try:
             # mostly orders; now and then the other message types an application sends and receives through the same API
-            mt = "D" if self.cnt % 7 else ("n", "3", "j", "B", "8")[(self.cnt // 7) % 5]
+            mt = "D" if self.cnt % 7 else ("n", "3", "j", "B", "8", "U1")[(self.cnt // 7) % 6]      # (U1: a type the library's enum does not list)
             body = {11: ident, 55: "X"} if mt in ("D", "8") else {11: ident, 58: "text", 45: 1, 372: "D", 380: 0}
             await self.w.ep[side].send_msg(FIXMessage(mt, body))
             self.accepted[side].append(ident)
